@@ -6,7 +6,7 @@ Cases are caller/callee pairs in JSON (MiniF statements, see minif.py) extended 
   ['return']                RETURN (reference interpreter only; not representable in the Coq core)
 They are printed to Fortran, parsed with the real frontend, the parsed bodies are read back (model input), the REAL
 inlining utility is applied and the resulting body is read back (model output / oracle input)."""
-import os, copy, json, random, itertools
+import os, re, copy, json, random, itertools
 from ..framework import Property
 from ..coqlit import coq, C, Nat, Some, Raw
 from .. import minif as M
@@ -62,6 +62,11 @@ def unit_src(u, contains=(), uses=(), stmtfuncs=()):
     if kind == 'function': lines.append('  integer :: %s' % u['name'])
     for sf in stmtfuncs: lines.append('  %s(%s) = %s' % (sf['name'], ', '.join(sf['params']), M.fexpr(sf['body'])))
     lines += fstmts(u['body'])
+    if u.get('upcase'):
+        # Fortran identifiers are case-insensitive: print the listed names in upper case in THIS unit only
+        import re
+        pat = re.compile(r'\b(%s)\b' % '|'.join(re.escape(x) for x in u['upcase']))
+        lines = lines[:1] + [pat.sub(lambda m_: m_.group(1).upper(), l) for l in lines[1:]]
     if contains:
         lines.append('contains')
         for c in contains: lines += ['  ' + l for l in unit_src(c).split('\n')]
@@ -706,6 +711,10 @@ def gen_callee(rng, name, taken=()):
     u = {'name': name, 'args': args, 'scalars': sd + locs + used_loops, 'arrays': {d: bounds[d] for d in ad},
          'intents': dict([(d, 'inout' if roles[d] == 'w' else 'in') for d in sd] + [(d, 'inout' if aroles[d] == 'w' else 'in') for d in ad]),
          'body': init + body}
+    if rng.random() < 0.45:
+        cand = locs + used_loops
+        up = [v for v in cand if rng.random() < 0.7]
+        if up: u['upcase'] = up
     # a dummy declared 'w' may end up unwritten; recompute
     wset = written_scalars(u['body'])
     for d in sd: u['intents'][d] = 'inout' if d in wset else 'in'
@@ -821,6 +830,8 @@ def gen_sub_case(rng, n, tier, mode=None):
                 callees.append(g); body += mark + [['call', 'g', kw(rng, g, acts3)]]
         body += caller_filler(rng, rng.randint(0, 2))
         caller['body'] = body
+        if rng.random() < 0.2 and not any(c.get('upcase') for c in callees):
+            caller['upcase'] = [v for v in ['t', 'u', 'i', 'x'] if rng.random() < 0.6] or ['t']
         return {'kind': 'sub-' + mode, 'mode': mode, 'cls': 'in', 'caller': caller, 'callees': callees, 'seed': n,
                 'gf': n % (3 if tier == 'thorough' else 16) == 0}
     raise RuntimeError('generator failed')
@@ -991,6 +1002,7 @@ def gen_fn_case(rng, n, tier):
     mid, ex = gen_stmts(rng, rs, locs, {}, [], ['k'], depth=1, n=rng.randint(0, 2) if locs else 0)
     g = {'name': 'g', 'kind': 'function', 'args': sd, 'scalars': sd + locs + (['k'] if has_loopvar(mid, 'k') else []), 'arrays': {},
          'intents': {d: 'in' for d in sd}, 'body': init + mid + [['assign', 'g', ex(2, [])]]}
+    if locs and rng.random() < 0.4: g['upcase'] = [v for v in locs if rng.random() < 0.7] or [locs[0]]
     def gcall(loops):
         _, e = gen_stmts(rng, ['x', 'y', 'z', 't'] + [l[0] for l in loops], [], {'a': [(1, 4)]}, [], [], 0, 0)
         return ['call', 'g'] + [e(1, loops) for _ in sd]
@@ -1020,7 +1032,7 @@ class C28(Property):
     parallel = True
     shard = 60
     rule = ('seeded caller/callee pairs printed to Fortran and parsed by the real frontend: (sub-internal / sub-marked) callees with read-only and '
-            'written scalar dummies, whole-array dummies with equal or shifted lower bounds, locals that clash with caller names, loops, '
+            'written scalar dummies, whole-array dummies with equal or shifted lower bounds, locals that clash with caller names (also only up to letter case: mixed-case source spellings), loops, '
             'conditionals, positional and keyword actuals (variables, expressions, array elements), one or two calls and one or two callees, the '
             'call at top level or inside IF/DO; (dims-*) array-section actuals and lower-bound offsets; (stmtfunc) nested statement functions; '
             '(const) module parameters; (fn-*) member and elemental functions, one call per node; (edge-*) a small stream outside the proved class '
